@@ -442,16 +442,37 @@ Qed.
 (* ---------------------------------------------------------------------------------------- *)
 Definition stf (s' s : socket) : Prop :=
   s_state s' = s_state s /\ s_tuple s' = s_tuple s /\
-  (s_remote_last_ack s <> None -> s_remote_last_ack s' <> None).
+  (s_remote_last_ack s <> None -> s_remote_last_ack s' <> None) /\
+  rt_max_seq_sent (s_rtte s') = rt_max_seq_sent (s_rtte s).
 
 Lemma stf_refl s : stf s s.
-Proof. split; [reflexivity|]. split; [reflexivity|]. auto. Qed.
+Proof. split; [reflexivity|]. split; [reflexivity|]. split; [auto | reflexivity]. Qed.
 Lemma stf_trans a b c : stf a b -> stf b c -> stf a c.
-Proof. intros (A1 & A2 & A3) (B1 & B2 & B3). split; [congruence|]. split; [congruence | auto]. Qed.
+Proof.
+  intros (A1 & A2 & A3 & A4) (B1 & B2 & B3 & B4). split; [congruence|]. split; [congruence|].
+  split; [auto | congruence].
+Qed.
 
 Ltac stf_solve :=
   unfold stf; rproj; split; [reflexivity|]; split; [reflexivity|];
-  first [ intros Hla; exact Hla | intros _; discriminate ].
+  split; [first [ intros Hla; exact Hla | intros _; discriminate ] | reflexivity].
+
+Lemma rtte_sample_msx r x r' : rtte_sample r x = Ok r' -> rt_max_seq_sent r' = rt_max_seq_sent r.
+Proof.
+  unfold rtte_sample. intros H.
+  apply obind_ok_inv in H. destruct H as ((sv & rv) & _ & H).
+  apply obind_ok_inv in H. destruct H as (m & _ & H).
+  apply obind_ok_inv in H. destruct H as (y & _ & H).
+  inversion H; subst. reflexivity.
+Qed.
+
+Lemma rtte_on_ack_msx r t a r' : rtte_on_ack r t a = Ok r' -> rt_max_seq_sent r' = rt_max_seq_sent r.
+Proof.
+  unfold rtte_on_ack. intros H. destruct (rt_timestamp r) as [(ts, sq0)|]; [|inversion H; reflexivity].
+  destruct (seq_ge a sq0); [|inversion H; reflexivity].
+  apply obind_ok_inv in H. destruct H as (r1 & H1 & H). inversion H; subst. cbn [rt_max_seq_sent].
+  exact (rtte_sample_msx _ _ _ H1).
+Qed.
 
 Lemma ack_reply_stf cx s ip r : stf (fst (tcp_ack_reply cx s ip r)) s.
 Proof. unfold tcp_ack_reply. destruct (tcp_reply ip r) as (ip', reply). cbn [fst]. stf_solve. Qed.
@@ -549,8 +570,10 @@ Proof.
   { des1 H1.
     - repeat (apply obind_ok_inv in H1; destruct H1 as (? & _ & H1)).
       inversion H1; subst. des_all H1; stf_solve.
-    - repeat (apply obind_ok_inv in H1; destruct H1 as (? & _ & H1)).
-      inversion H1; subst. des_all H1; stf_solve. }
+    - apply obind_ok_inv in H1. destruct H1 as (rt' & Hrt & H1).
+      repeat (apply obind_ok_inv in H1; destruct H1 as (? & _ & H1)).
+      inversion H1; subst. pose proof (rtte_on_ack_msx _ _ _ _ Hrt) as Hm. revert Hm. rproj. intros Hm.
+      des_all H1; unfold stf; rproj; (split; [reflexivity|]; split; [reflexivity|]; split; [auto | exact Hm]). }
   cbv beta iota zeta in H.
   eapply stf_trans; [|exact Hf1].
   des_all H; inversion H; subst; stf_solve.
@@ -678,6 +701,16 @@ Definition reply_shape (ip : ip_repr) (r : tcp_repr) (s s' : socket) (rep : opti
                ack_shape s' p)
   end.
 
+(* never a RST *)
+Definition reply_ack (ip : ip_repr) (r : tcp_repr) (s' : socket) (rep : option packet) : Prop :=
+  match rep with
+  | None => True
+  | Some p => reply_to ip r p /\ ack_shape s' p
+  end.
+
+Lemma reply_ack_shape ip r s s' rep : reply_ack ip r s' rep -> reply_shape ip r s s' rep.
+Proof. destruct rep as [p|]; [|auto]. intros (A & B). split; [exact A | right; exact B]. Qed.
+
 Lemma ack_reply_shape cx s ip r s' p :
   tcp_ack_reply cx s ip r = (s', p) -> reply_to ip r p /\ ack_shape s' p.
 Proof.
@@ -687,15 +720,19 @@ Proof.
   repeat split; reflexivity.
 Qed.
 
-Lemma challenge_shape cx s0 ip r s s' rep :
-  tcp_challenge_ack_reply cx s0 ip r = (s', rep) -> reply_shape ip r s s' rep.
+Lemma challenge_ack cx s0 ip r s' rep :
+  tcp_challenge_ack_reply cx s0 ip r = (s', rep) -> reply_ack ip r s' rep.
 Proof.
   unfold tcp_challenge_ack_reply. destruct (cx_now cx <? s_challenge_ack_timer s0).
   - intros H; inversion H; subst. exact I.
   - destruct (tcp_ack_reply cx (upd_challenge_ack_timer s0 (cx_now cx + 1000000)) ip r) as (s1, p) eqn:E.
     intros H; inversion H; subst s' rep; clear H.
-    destruct (ack_reply_shape _ _ _ _ _ _ E) as (A & B). split; [exact A | right; exact B].
+    exact (ack_reply_shape _ _ _ _ _ _ E).
 Qed.
+
+Lemma challenge_shape cx s0 ip r s s' rep :
+  tcp_challenge_ack_reply cx s0 ip r = (s', rep) -> reply_shape ip r s s' rep.
+Proof. intros H. apply reply_ack_shape. exact (challenge_ack _ _ _ _ _ _ H). Qed.
 
 Lemma rst_reply_to ip r p : tcp_rst_reply ip r = Ok p -> reply_to ip r p /\ r_control (snd p) = CRst.
 Proof.
@@ -720,8 +757,8 @@ Proof.
        end.
 Qed.
 
-Lemma window_ret_shape cx s ip r t s1 rep :
-  tcp_process_window cx s ip r = Ok (Ret t s1 rep) -> reply_shape ip r s s1 rep.
+Lemma window_ret_ack cx s ip r t s1 rep :
+  tcp_process_window cx s ip r = Ok (Ret t s1 rep) -> reply_ack ip r s1 rep.
 Proof.
   unfold tcp_process_window. intros H.
   destruct (s_state s); try discriminate H.
@@ -733,14 +770,18 @@ Proof.
          destruct ((match r_payload r0 with [] => false | _ => true end)
                    && (match r_control r0 with CNone | CPsh | CFin => true | _ => false end));
          [ destruct (tcp_ack_reply cx0 q ip0 r0) as (s', p) eqn:E; inversion H; subst;
-           destruct (ack_reply_shape _ _ _ _ _ _ E) as (A & B); split; [exact A | right; exact B]
+           exact (ack_reply_shape _ _ _ _ _ _ E)
          | destruct (tcp_challenge_ack_reply cx0 q ip0 r0) as (s', p) eqn:E; inversion H; subst;
-           exact (challenge_shape _ _ _ _ _ _ _ E) ]
+           exact (challenge_ack _ _ _ _ _ _ E) ]
        end.
 Qed.
 
-Lemma transition_ret_shape cx s0 ip r c al aof t s1 rep s :
-  tcp_process_transition cx s0 ip r c al aof = Ok (Ret t s1 rep) -> reply_shape ip r s s1 rep.
+Lemma window_ret_shape cx s ip r t s1 rep :
+  tcp_process_window cx s ip r = Ok (Ret t s1 rep) -> reply_shape ip r s s1 rep.
+Proof. intros H. apply reply_ack_shape. exact (window_ret_ack _ _ _ _ _ _ _ H). Qed.
+
+Lemma transition_ret_ack cx s0 ip r c al aof t s1 rep :
+  tcp_process_transition cx s0 ip r c al aof = Ok (Ret t s1 rep) -> reply_ack ip r s1 rep.
 Proof.
   intros H. unfold tcp_process_transition in H.
   destruct (s_state s0); destruct c; cbv beta iota in H.
@@ -752,12 +793,16 @@ Proof.
   all: try (inversion H; subst; exact I).
   all: match type of H with context [tcp_challenge_ack_reply ?cx0 ?q ?ip0 ?r0] =>
          destruct (tcp_challenge_ack_reply cx0 q ip0 r0) as (s', p) eqn:E; inversion H; subst;
-         exact (challenge_shape _ _ _ _ _ _ _ E)
+         exact (challenge_ack _ _ _ _ _ _ E)
        end.
 Qed.
 
-Lemma payload_shape cx s0 ip r payload off s' rep tg s :
-  tcp_process_payload cx s0 ip r payload off = Ok (s', rep, tg) -> reply_shape ip r s s' rep.
+Lemma transition_ret_shape cx s0 ip r c al aof t s1 rep s :
+  tcp_process_transition cx s0 ip r c al aof = Ok (Ret t s1 rep) -> reply_shape ip r s s1 rep.
+Proof. intros H. apply reply_ack_shape. exact (transition_ret_ack _ _ _ _ _ _ _ _ _ _ H). Qed.
+
+Lemma payload_ack cx s0 ip r payload off s' rep tg :
+  tcp_process_payload cx s0 ip r payload off = Ok (s', rep, tg) -> reply_ack ip r s' rep.
 Proof.
   intros H. unfold tcp_process_payload in H.
   destruct (l_len payload =? 0); [inversion H; subst; exact I|].
@@ -769,10 +814,13 @@ Proof.
   match type of H with (let '(_, _) := ?m in _) = _ => destruct m as (q1, t1) end.
   destruct (negb (asm_is_empty (s_assembler q1)) || _).
   - destruct (tcp_ack_reply cx q1 ip r) as (q2, p) eqn:E.
-    inversion H; subst s' rep tg. destruct (ack_reply_shape _ _ _ _ _ _ E) as (A & B).
-    split; [exact A | right; exact B].
+    inversion H; subst s' rep tg. exact (ack_reply_shape _ _ _ _ _ _ E).
   - inversion H; subst. exact I.
 Qed.
+
+Lemma payload_shape cx s0 ip r payload off s' rep tg s :
+  tcp_process_payload cx s0 ip r payload off = Ok (s', rep, tg) -> reply_shape ip r s s' rep.
+Proof. intros H. apply reply_ack_shape. exact (payload_ack _ _ _ _ _ _ _ _ _ H). Qed.
 
 Theorem process_reply_shape cx s ip r s' rep tags :
   tcp_process cx s ip r = Ok (s', rep, tags) -> reply_shape ip r s s' rep.
@@ -868,7 +916,7 @@ Proof.
   { des1 H1.
     - inversion H1; subst. unfold stf, nxf. rproj.
       cbn [repr_set_payload repr_set_seq r_src_port r_dst_port r_control r_payload r_seq_number].
-      split; [split; [reflexivity|]; split; [reflexivity|]; auto|]. split; [split; reflexivity|].
+      split; [split; [reflexivity|]; split; [reflexivity|]; split; [auto | reflexivity]|]. split; [split; reflexivity|].
       repeat (split; [reflexivity || assumption|]).
       intros Hwf Hl. rewrite Hl. split; [|right; reflexivity].
       apply get_allocated_empty; [exact Hwf | exact Hl | lia].
@@ -973,7 +1021,7 @@ Proof.
     - pose proof (TcpRecvDispatch.build_data_spec _ _ _ _ _ _ _ Hb eq_refl) as ((_ & Hs) & _). congruence. }
   rewrite Est1 in Hb.
   destruct (build_data_est _ _ _ _ _ _ _ Hb Est1 eq_refl eq_refl)
-    as ((B1 & B2 & _) & Bn & Bt & repr1 & -> & P1 & P2 & P3 & P4).
+    as ((B1 & B2 & _ & _) & Bn & Bt & repr1 & -> & P1 & P2 & P3 & P4).
   split.
   { rewrite F2 by (rewrite B1, Est1; discriminate). congruence. }
   intros p Hp.
